@@ -65,7 +65,7 @@ class Built:
 def mk(expr, nodes, ident):
     """Returns Built: the user-level object (holding Node objects), a function vals -> expected value, has_node."""
     t = expr[0]
-    if t in ("int", "str"):
+    if t in ("int", "str", "lit"):
         v = expr[1]
         return Built(v, lambda vals: v, False)
     if t == "op":
@@ -153,7 +153,8 @@ def deep_same(got, exp, ident, path="value"):
             if r:
                 return r
         return None
-    return None if _eq(got, exp) else f"{path}: {got!r}, expected {exp!r}"
+    # leaves: equal, same type (checked above) and same representation (1 / True / 1.0 and 0.0 / -0.0 are distinguishable)
+    return None if _eq(got, exp) and repr(got) == repr(exp) else f"{path}: {got!r}, expected {exp!r}"
 
 
 # ---------------------------------------------------------------------------------------------
@@ -193,7 +194,7 @@ def depth1():
 
 def hashable(expr):
     t = expr[0]
-    if t in ("int", "str", "n"):
+    if t in ("int", "str", "n", "lit"):
         return True
     if t == "tuple":
         return all(hashable(c) for c in expr[1])
@@ -240,13 +241,18 @@ def _has_node(e):
 def programs(tier):
     """Yield (family, program)."""
     exprs = base_exprs() + depth1() + depth2(tier)
+    # equal-but-distinguishable leaves next to a node, and twice the same node-free container
+    exprs += [("list", [("n", 0), ("lit", 1), ("lit", True), ("lit", 1.0)]), ("tuple", [("lit", 0.0), ("lit", -0.0), ("n", 1)]),
+              ("list", [("tuple", [("int", 7)]), ("tuple", [("int", 7)]), ("n", 0)]),
+              ("dict", [(("str", "a"), ("lit", True)), (("str", "b"), ("lit", 1)), (("str", "c"), ("n", 0))])]
     # F1: one call over every expression; F1o: every expression as the output specification
     for e in exprs:
         yield "expr-as-argument", {"calls": BASE_CALLS + [("f", [e], [])], "output": ("n", 3)}
         yield "expr-as-keyword", {"calls": BASE_CALLS + [("f", [], [("kw", e)])], "output": ("n", 3)}
         yield "expr-as-output", {"calls": BASE_CALLS, "output": e}
     # F2: argument plumbing
-    A = [("int", 7), ("n", 0), ("n", 1), ("list", [("n", 0)]), ("op",)]
+    # includes values that are equal but distinguishable (1 / True / 1.0) and an equal-but-distinct hashable container
+    A = [("int", 7), ("n", 0), ("n", 1), ("list", [("n", 0)]), ("op",), ("lit", 1), ("lit", True), ("lit", 1.0), ("tuple", [("int", 7)])]
     kws = [[]]
     for names in (("a",), ("b",), ("a", "b"), ("b", "a")):
         for vals in itertools.product(A, repeat=len(names)):
